@@ -416,13 +416,66 @@ func (r *Runner) RunRemote(ctx context.Context, sc *Scenario, binary string) err
 		st, err = connect()
 		return err
 	}
+	// "overlap": a SECOND process of the same program is started on the same base directory (same configuration file, same
+	// slashing database) while the first is still serving - a restart that does not wait for the old process to go, a second unit
+	// started by mistake.  Its only difference is the listen address.  If it comes up, the ops marked Alt are sent to it.
+	var second *exec.Cmd
+	var secondExited chan struct{}
+	var st2 *Stack
+	var conn2 *grpc.ClientConn
+	defer func() {
+		if conn2 != nil {
+			_ = conn2.Close()
+		}
+		if second != nil {
+			_ = second.Process.Kill()
+			<-secondExited
+		}
+	}()
 	for _, op := range sc.Ops {
 		switch op.Kind {
+		case "overlap":
+			addr2, err := FreeAddr("127.0.0.1")
+			if err != nil {
+				return err
+			}
+			cmd := exec.Command(env.Binary, "--base-dir", env.Dir)
+			cmd.Env = append(os.Environ(), "HOME="+env.Dir, "DIRK_SERVER_LISTEN_ADDRESS="+addr2)
+			errf, _ := os.OpenFile(filepath.Join(env.Dir, "dirk2.stderr"), os.O_CREATE|os.O_WRONLY|os.O_APPEND, 0o600)
+			cmd.Stdout, cmd.Stderr = errf, errf
+			if err := cmd.Start(); err != nil {
+				return err
+			}
+			exited := watchProc(cmd)
+			if werr := waitOurServer(addr2, exited, filepath.Join(env.Dir, "dirk2.stderr"), env.PKI, env.Other); werr != nil {
+				_ = cmd.Process.Kill()
+				<-exited
+				why := werr.Error()
+				if len(why) > 300 {
+					why = why[len(why)-300:]
+				}
+				r.Log.Emit(Ev{"ev": "Overlap", "started": false, "why": why})
+				break
+			}
+			second, secondExited = cmd, exited
+			c2, derr := (&APIServer{Addr: addr2, PKI: env.PKI, Other: env.Other}).Dial(ctx, "valid-c1")
+			if derr != nil {
+				return derr
+			}
+			conn2 = c2
+			st2 = &Stack{B: env.B, Sig: clientSig{pb.NewSignerClient(c2)}}
+			r.Log.Emit(Ev{"ev": "Overlap", "started": true, "addr": addr2})
 		case "restart":
 			if err := restart("sigkill between requests"); err != nil {
 				return err
 			}
 		case "att", "atts", "prop", "gen", "multi":
+			if op.Alt && st2 != nil {
+				dctx, dcancel := context.WithTimeout(ctx, 60*time.Second)
+				r.runSign(dctx, st2, env.B, op)
+				dcancel()
+				break
+			}
 			if op.KillAfterUs > 0 {
 				done := make(chan struct{})
 				cur := st
@@ -473,6 +526,11 @@ func (r *Runner) RunRemote(ctx context.Context, sc *Scenario, binary string) err
 		_ = conn.Close()
 	}
 	env.Kill()
+	if second != nil {
+		_ = second.Process.Kill()
+		<-secondExited
+		second = nil
+	}
 	r.RawDump(env.StorageDir(), env.B, "final")
 	r.Log.Emit(Ev{"ev": "End", "sc": sc.ID, "faults_hit": []string{}, "passages": 0})
 	return nil
